@@ -5,6 +5,7 @@ monitor (mutate every container in what get/eval returned and in what was passed
 compare; id()-disjointness of successive results); an argument recorder inside exposed callables (order,
 count, typed values); icontract postcondition on the real Context._to_python (JSON-like output only).
 """
+import json
 import math
 import random
 
@@ -237,6 +238,66 @@ def w_args(case, opts):
     return out
 
 
+def pyenc(v):
+    """encpy of a JSON-like Python primitive, computed without the engine (parent side)."""
+    import struct
+    if v is None:
+        return ["N"]
+    if v is True or v is False:
+        return ["b", v]
+    if isinstance(v, int):
+        return ["i", str(v)]
+    if isinstance(v, float):
+        return ["d", struct.pack(">d", v).hex()]
+    return ["s", v]
+
+
+def w_callhist(case, opts):
+    """A sequence of invocations of ONE exposed callable through many call forms (bound once, invoked repeatedly): the recorder must
+    see exactly the argument vectors of the model, call by call (nothing carried over from earlier calls)."""
+    from vf import engine as E
+    ctx = E.new_context()
+    seen = []
+
+    def rec(*args):
+        seen.append([E.encpy(ctx._to_python(a)) for a in args])
+        return len(seen)
+    ctx.set("rec", rec)
+    out = {}
+    try:
+        out["ret"] = E.encpy(ctx.eval(case["src"]))
+    except Exception as e:
+        out["exc"] = [type(e).__name__, str(e)[:200]]
+    out["seen"] = seen
+    return out
+
+
+def gen_callhist(rng):
+    pre = ("var B1 = rec.bind(null, 'p1'), B0 = rec.bind(null), B2 = rec.bind({t: 1}, 'p1', 2), B3 = B1.bind(null, 'q'), holder = {m: rec, b: B1}, "
+           "viaCall = function () { return rec.apply(null, arguments); };\n")
+    forms = {"rec": [], "rec.call-null": [], "rec.apply": [], "B1": ["p1"], "B0": [], "B2": ["p1", 2], "B3": ["p1", "q"], "holder.m": [], "holder.b": ["p1"], "viaCall": [], "B1.call": ["p1"],
+             "B2.apply": ["p1", 2], "Function.call": []}
+    lines, model = [], []
+    for _ in range(rng.randint(3, 12)):
+        f = rng.choice(list(forms))
+        args = [rng.choice([0, 1, -1, 2.5, "", "s", True, False, None]) for _ in range(rng.randint(0, 3))]
+        al = ", ".join(json.dumps(a) for a in args)
+        if f == "rec.call-null":
+            lines.append("rec.call(null%s);" % (", " + al if al else ""))
+        elif f == "rec.apply":
+            lines.append("rec.apply(null, [%s]);" % al)
+        elif f == "B1.call":
+            lines.append("B1.call({}%s);" % (", " + al if al else ""))
+        elif f == "B2.apply":
+            lines.append("B2.apply(null, [%s]);" % al)
+        elif f == "Function.call":
+            lines.append("Function.prototype.call ? rec.call.call(rec, null%s) : rec(%s);" % ((", " + al if al else ""), al))
+        else:
+            lines.append("%s(%s);" % (f, al))
+        model.append(forms[f] + args)
+    return pre + "\n".join(lines) + "\n'done'", model
+
+
 JS_VALUES = [("undefined", ["u"]), ("null", ["n"]), ("true", ["b", True]), ("0", None), ("-0", None), ("1.5", None), ("NaN", ["d", "nan"]),
              ("'s'", ["s", "s"]), ("''", ["s", ""]), ("[1, 2]", "a"), ("{a: 1}", "o"), ("function(){}", ["f"]), ("Infinity", None),
              ("'\\ud83d\\ude00'", None)]
@@ -334,6 +395,11 @@ def main(ctx):
         rres = ep.map({"mod": "checks.C11", "fn": "w_roundtrip"}, cases, batch=100, timeout=300)
         sres = ep.map({"mod": "checks.C11", "fn": "w_script_result"}, scases, batch=100, timeout=300)
         ares = ep.map({"mod": "checks.C11", "fn": "w_args"}, acases, batch=50, timeout=300)
+        hcases = []
+        for i in range(300 if ctx.quick else 6000):
+            src, model = gen_callhist(fixed if i % 2 else rng)
+            hcases.append({"src": src, "model": model})
+        hres = ep.map({"mod": "checks.C11", "fn": "w_callhist"}, hcases, batch=50, timeout=300)
     finally:
         ep.close()
     evals = 0
@@ -386,6 +452,14 @@ def main(ctx):
             if ctx.known_cell(cid, h(r["py"], 10)):
                 continue
             ctx.violation(("script-result", "conversion"), {"case": c["src"][:600], "want": short(c["want"], 400), "got": short(r["py"], 400)})
+        else:
+            ctx.nontrivial(h(c["src"]))
+    for c, r in zip(hcases, hres):
+        ctx.count()
+        want = [[pyenc(a) for a in vec] for vec in c["model"]]
+        if not r or "exc" in r or r.get("seen") != want:
+            ctx.violation(("call-history", "argument vectors differ from the model"), {"case": c["src"][-700:], "model": c["model"], "seen": (r or {}).get("seen"), "exc": (r or {}).get("exc"),
+                                                                                       "monitor": "recorder inside the exposed callable vs call-by-call model"})
         else:
             ctx.nontrivial(h(c["src"]))
     exp_map = dict(JS_VALUES)
